@@ -435,6 +435,9 @@ def harness_farm(ctx, groups, make_src, cfgs, args, batch=6, opt="-O1", tag="h",
         return recs
     allrecs = [r for lst in ctx.pmap(run, built) for r in lst]
     ctx.programs += len(built)
+    for r in allrecs:
+        if r.get("k") == "crash":
+            ctx.violation({"crash": r["inflight"]}, "the library raised fatal signal %d inside a public call: %s [%s]" % (r["sig"], r["inflight"], r["cfg"]), detail=r)
     return allrecs, dropped, len(built)
 
 
